@@ -45,6 +45,13 @@ HISTORY = {
     "C13-eq-circuit-pairwise-drops-odd": "missed at first: all key types were 8 or 16 bits wide; a 24-bit key type with 0 and every single-bit key added",
     "C14-single-stmt-block-no-scope": "missed at first: every block with a shadowing binding had further statements; blocks / branches / arms / loop bodies whose only statement is a shadowing binding added to family X",
     "C17-mod-accepts-bool-operands": "missed at first: operands were replaced, never operators; rule OperatorKind (arithmetic operator on Boolean operands, logical operator on numbers) added",
+    "C06-bristol-dealias-hashmap-order": "missed at first: the Bristol export ran after the controlled compilation, outside the reach of the hash-order choice points; the export is now part of the controlled run and its text is compared across all orders",
+    "C07-for-error-path-scope-overpop": "missed at first: no corpus program had two ill-typed loops sharing an accumulator; such a program (and its token perturbations) added",
+    "C05-main-params-in-const-scope": "missed by C05 at first: no program had a main parameter named like a wider constant that callees read; added to family A and to the C05 shape list",
+    "C11-import-outputs-after-inputs-off-by-one": "missed at first: every exported circuit had at least one gate that is not an output; programs whose every gate (constants included) is an output, and every non-empty subset of {both constants, every gate} as output list of the builder-made circuits, added",
+    "C12-signed-const-magnitude-check": "missed by C12 at first (C09 caught it): wrongly typed constants were six fixed literals for a u8 / usize constant; supplied-value menu added: every constant type x every boundary literal (MIN-1..MAX+1) of every number type, unspecified numbers and non-numbers, with acceptance, refusal and literal-substitution oracles",
+    "C14-nested-assign-mux-index-bits": "missed at first: assignments through an index followed by further accessors only occurred with arrays of length 2; place programs (tuple / struct / array / array-in-tuple elements) for every array length 1..9 (thorough up to 33) and every index added to family A",
+    "C17-unify-unspecified-with-non-number": "missed at first: operands were only replaced by a value of a fresh nominal type, never by an unsuffixed number; sweep KindMeetsType added: 30 paths by which an expression meets its expected type x 9 types x holes (unsuffixed / let-bound numbers for non-number types; Booleans, units, arrays for number types), each with a well-typed twin",
     "C17-match-arms-share-scope": "missed at first: UseAfterScope only covered loop variables and block locals; replaced by a reference model of lexical scoping (every use x every name bound elsewhere but not in scope)",
 }
 rows = []
